@@ -283,8 +283,28 @@ def run(ck: Checker):
     sps = [sp for sp in spawn_sites(st) if sp.target is not None and sp.target.name == '_run_logger']
     if sps:
         dm = kwarg(sps[0].call, 'daemon')
+        if dm is None:
+            # `t = Thread(...)` followed by `t.daemon = <flag>`
+            holder = next((a_ for a_ in walk_shallow_func(st.node) if isinstance(a_, ast.Assign) and a_.value is sps[0].call and len(a_.targets) == 1), None)
+            if holder is not None:
+                tgt = ast.dump(holder.targets[0]).replace('Store()', 'Load()')
+                later = [a_ for a_ in walk_shallow_func(st.node) if isinstance(a_, ast.Assign) and len(a_.targets) == 1 and isinstance(a_.targets[0], ast.Attribute) and a_.targets[0].attr == 'daemon' and ast.dump(a_.targets[0].value) == tgt]
+                if later:
+                    dm = later[0].value
         okd = not (isinstance(dm, ast.Constant) and dm.value is True)
         ck.ob('C20-3', st, (sps[0].call.lineno, 'logger thread daemon flag'), okd, 'the logger thread is not forced to be a daemon: records still queued when the interpreter exits are handled before the thread ends' if okd else 'the logger thread is always a daemon: it is killed at interpreter shutdown with the tail of the child\'s records still unhandled')
+        # for a process that is not a daemon the flag must come out as False -- not None (absent / `x or None`), which
+        # makes the thread inherit the flag of whatever thread called start(): decided by evaluating the expression
+        from mpsa.absval import UNKNOWN, eval_expr
+        import copy as _copy
+
+        if okd:
+            e_ = _copy.deepcopy(dm) if dm is not None else ast.Constant(None)
+            for c_ in [x for x in ast.walk(e_) if isinstance(x, ast.Call) and dotted(x.func) == 'getattr' and len(x.args) >= 2 and is_name(x.args[0], 'self') and isinstance(x.args[1], ast.Constant) and x.args[1].value == 'daemon']:
+                c_.func, c_.args, c_.keywords = ast.Name(id='bool', ctx=ast.Load()), [ast.Attribute(value=ast.Name(id='self', ctx=ast.Load()), attr='daemon', ctx=ast.Load())], []
+            v_ = eval_expr(e_, {'self.daemon': False})
+            okn = v_ is False or v_ is UNKNOWN
+            ck.ob('C20-3', st, (sps[0].call.lineno, 'logger thread daemon flag of a non-daemon process'), okn, 'for a process that is not a daemon the logger thread is explicitly not a daemon' if okn else f'`daemon={norm_text(dm) if dm is not None else None}` gives {v_!r} for a process that is not a daemon: the logger thread inherits the flag of the thread that calls start() — started from a daemon thread it is killed at interpreter exit with the child\'s records unhandled')
     ok = not readers and len(sps) == 1 and not sps[0].in_loop
     bound = None
     if sps:
